@@ -295,3 +295,73 @@ Proof.
   exists n, z. auto.
 Qed.
 Print Assumptions C03_test_machine_apps_valid_real.
+
+(** ------------------------------------------------------------------ *)
+(** F14 (Proofs/F14Witness.v): the hypothesis [apps_valid] / [RuleValid]
+    CANNOT be dropped.  For the faithful model of the unchanged code there is
+    a recorded application that is NOT a run of the real machine: program
+    [f14_prog] (23 states, 4 colours; text [f14_text]), cycle limit 400.  At
+    cycle 43, in state 14 = O, on the tape 1 / 2:6,3:1 / 1:5 (scan / left span /
+    right span, nearest block first) the inferred rule "L0 +1, R0 -1" is
+    applied 4 times at once, giving 1 / 2:10,3:1 / 1:1.  From the tape before,
+    the real machine halts after 28 steps and none of its 29 configurations
+    is the configuration after.  The first three single applications are real
+    (7 steps each); the fourth, which passes the guard of rules.rs (the
+    decreasing block has 2 > 1 cells), is not: one application too many. *)
+From BB Require Import F14Witness.
+
+(** the negation of the conclusion of [C03_trace_replayed_apps_real] (no lower
+    bound on the number of steps: the weakest of the conclusions above, so
+    that of [C03_trace_valid_apps_real] and of [C03_apply_sound] fail too),
+    for an application recorded by a run of the model *)
+Theorem C03_application_refuted_F14 :
+  exists comp lim r apps a,
+    run_prover_trace comp lim = Ok (r, apps) /\ In a apps /\
+    app_state a = 14 /\
+    app_before a = mkTape 1 [(2, 6); (3, 1)] [(1, 5)] /\
+    app_rule a = [((false, 0), Plus 1%Z); ((true, 0), Plus (-1)%Z)] /\
+    app_times a = 4 /\
+    app_after a = mkTape 1 [(2, 10); (3, 1)] [(1, 1)] /\
+    apply_rule (app_before a) (app_rule a) = Ok (Some (app_times a), app_after a) /\
+    ~ (exists n z, tm_steps (to_prog comp) n (app_state a, unroll_tape (app_before a)) = Some (app_state a, z) /\
+                   tape_eq z (unroll_tape (app_after a))).
+Proof. exact application_refuted_F14. Qed.
+Print Assumptions C03_application_refuted_F14.
+
+(** the same with the data spelled out: after no number of steps is the real
+    machine in state 14 on the tape after the application *)
+Theorem C03_application_not_real_F14 : forall n z,
+  tm_steps (to_prog f14_prog) n (14, unroll_tape (mkTape 1 [(2, 6); (3, 1)] [(1, 5)])) = Some (14, z) ->
+  ~ tape_eq z (unroll_tape (mkTape 1 [(2, 10); (3, 1)] [(1, 1)])).
+Proof. exact f14_app_not_real. Qed.
+Print Assumptions C03_application_not_real_F14.
+
+(** which single application fails: the first three are real (replay checker
+    + [C03_replay_sound]); the fourth, 1/2:9,3:1/1:2 -> 1/2:10,3:1/1:1, is an
+    instance of the rule on a canonical tape that passes the guard, and is
+    not a run of the machine; hence the rule is not [RuleValid] *)
+Theorem C03_first_three_applications_real_F14 :
+  (exists k z, (1 <= k)%nat /\
+     tm_steps (to_prog f14_prog) k (14, unroll_tape f14_t0) = Some (14, z) /\
+     tape_eq z (unroll_tape f14_t3)) /\
+  Shifted f14_rule 1 f14_t3 f14_t4 /\ rule_guard f14_rule f14_t3 /\ canon_tape f14_t3 /\
+  (forall n z, tm_steps (to_prog f14_prog) n (14, unroll_tape f14_t3) = Some (14, z) ->
+     ~ tape_eq z (unroll_tape f14_t4)) /\
+  ~ RuleValid (to_prog f14_prog) 14 f14_rule f14_t0.
+Proof. exact first_three_applications_real_F14. Qed.
+Print Assumptions C03_first_three_applications_real_F14.
+
+Theorem C03_rule_invalid_F14 :
+  ~ RuleValid (to_prog f14_prog) 14
+      [((false, 0), Plus 1%Z); ((true, 0), Plus (-1)%Z)] (mkTape 1 [(2, 6); (3, 1)] [(1, 5)]).
+Proof. exact f14_rule_invalid. Qed.
+Print Assumptions C03_rule_invalid_F14.
+
+(** the replay checker tells the four single applications apart *)
+Example C03_F14_replay :
+  replay3 f14_prog 14 f14_t0 14 f14_t1 100 = RpReached 7 /\
+  replay3 f14_prog 14 f14_t1 14 f14_t2 100 = RpReached 7 /\
+  replay3 f14_prog 14 f14_t2 14 f14_t3 100 = RpReached 7 /\
+  replay3 f14_prog 14 f14_t3 14 f14_t4 100 = RpStopped 7 /\
+  replay3 f14_prog 14 f14_t0 14 f14_t4 100 = RpStopped 28.
+Proof. vm_compute. repeat split; reflexivity. Qed.
